@@ -16,6 +16,7 @@ import (
 	"github.com/MichaelMure/git-bug/cache"
 	"github.com/MichaelMure/git-bug/repository"
 	"github.com/MichaelMure/git-bug/util/interrupt"
+	"github.com/MichaelMure/git-bug/util/process"
 	"github.com/MichaelMure/git-bug/zzverif/rt"
 	"github.com/MichaelMure/git-bug/zzverif/vrepo"
 )
@@ -37,6 +38,14 @@ func VH_C19_commands() {
 	if rt.Choose(2) == 1 {
 		_ = fx.Repo.LocalConfig().RemoveAll("git-bug.identity")
 		rt.Cover("no-identity-selected")
+	}
+	// another git-bug process may be holding the repository
+	held := rt.Choose(2) == 1
+	if held {
+		fx.Repo.FS.Files["lock"] = []byte("77")
+		process.VHIsRunning = func(pid int) bool { return pid == 77 }
+		defer func() { process.VHIsRunning = nil }()
+		rt.Cover("held-by-a-live-process")
 	}
 	env := &Env{Out: &TestOut{Buffer: &bytes.Buffer{}}, Err: &TestOut{Buffer: &bytes.Buffer{}}}
 	var pre func(*cobra.Command, []string) error
@@ -77,6 +86,13 @@ func VH_C19_commands() {
 		}
 	} else {
 		rt.Cover("pre-run-failed")
+	}
+	if held {
+		// the command must have been refused, and the holder's lock is not ours to remove
+		rt.Assert(perr != nil, "command-refused-while-another-process-holds-the-repository")
+		buf, still := fx.Repo.FS.Files["lock"]
+		rt.Assert(still && string(buf) == "77", "refused-command-keeps-the-holder-lock")
+		return
 	}
 	_, locked := fx.Repo.FS.Files["lock"]
 	rt.Assert(!locked, "lock-released-after-the-command")
